@@ -290,7 +290,15 @@ macro_rules! token_mod {
                         ),
                         |(negative, rep)| try_to_int_literal(negative, *rep, 10),
                     ),
-                    map(number::double, NumericValue::Float),
+                    map_res(number::double, |x| {
+                        // A literal beyond the range of f64 must not silently become infinity
+                        // (which has no Recon representation).
+                        if x.is_finite() {
+                            Ok(NumericValue::Float(x))
+                        } else {
+                            Err(())
+                        }
+                    }),
                 ))(input)
             }
 
